@@ -49,7 +49,27 @@ def run(ctx):
   ctx.check(bool(bools) and all(u(n.ast.value) == ss.params[1] for n in bools), 'C15.known-first', con, 'with a boolean, the flag decides for unknown names',
             'boolean skip_unknown is no longer returned as is', ss.loc(), instance='bool')
   val = [n for n in g.live_nodes() if any(prog.resolve_call(ss, c) == 'config._validate_skip_unknown' for c in calls_of_node(n))]
-  ctx.check(bool(val), 'C15.known-first', con, 'the option value is validated', 'skip_unknown is no longer validated', ss.loc(), instance='validated')
+  okv = bool(val)
+  where = 'in _should_skip itself'
+  if not okv:
+    # ... or by every caller, on every path to its call of _should_skip
+    sites = prog.call_sites_of(ss.qual) if hasattr(prog, 'call_sites_of') else []
+    okv = bool(sites)
+    where = 'by every caller before it asks'
+    for cf, call in sites:
+      gc_, fc_ = std_facts(prog, cf)
+      st_ = enclosing_stmt(call)
+      fs_ = facts_at(gc_, fc_, st_)
+      if fs_ is None:
+        # the call sits in a branch condition: use the facts of the test node that contains it
+        fs_ = frozenset()
+        for cn in gc_.live_nodes():
+          if cn.ast is not None and cn.kind == 'test' and in_subtree(call, cn.ast):
+            fs_ = fc_[cn.id]
+      if ('call', 'config._validate_skip_unknown') not in fs_:
+        okv = False
+  ctx.check(okv, 'C15.known-first', con, 'the option value is validated (%s)' % where,
+            'skip_unknown is no longer validated (neither in _should_skip nor on every path of every caller)', ss.loc(), instance='validated')
 
   # ---- C15.same-notion
   known_calls = [c for c in ast.walk(known_test.ast) if isinstance(c, ast.Call)]
